@@ -213,7 +213,11 @@ def worker_main(argv):
         if a.replay:
             with open(a.replay) as f:
                 rec = json.load(f)
-            mod.replay(ctx, rec['case'])
+            if str(rec['case'].get('workload', '')).startswith('concurrent-'):
+                # a schedule-dependent observation: the replay is the whole workload again (vf/concurrent.py)
+                mod.run(ctx)
+            else:
+                mod.replay(ctx, rec['case'])
         else:
             mod.run(ctx)
     except INTERNAL_ERRORS as e:
